@@ -317,9 +317,19 @@ class SourceFile:
     def find(self, path):
         """path: 'name' | 'Type::method' | 'Type@Trait::method' | 'mod::name' | 'mod::Type::method'.
         Returns the unique non-test Item, or raises KeyError."""
+        nth = None
+        m = re.search(r"#(\d+)", path)
+        if m:
+            # `Type@Trait#2::method`: the 2nd of several impls of the same trait for the same type (file order)
+            nth = int(m.group(1))
+            path = path.replace(m.group(0), "")
         parts = path.split("::")
         cands = self._find(self.items, parts)
         cands = [c for c in cands if not c.is_cfg_test()]
+        if nth is not None:
+            if not (1 <= nth <= len(cands)):
+                raise KeyError("%s: %d candidates for %s, wanted #%d" % (self.path, len(cands), path, nth))
+            return cands[nth - 1]
         if len(cands) > 1:
             # a macro_rules! of the same name as an item is never what a directive means
             nm = [c for c in cands if c.kind not in ("macro_rules", "macro_call")]
